@@ -16,6 +16,7 @@ SPEC = {
         "millisecond cast is guarded by <= i32::MAX and the overflow branch re-arms against the same deadline with "
         "a covered cycle; (f) the error path returns the very vectors filled during the call; (g) cursor and "
         "streams live in the communicator and are written only by the accounting sites (C02)."
+        " Also: Err(TimedOut) is built only under the clock test or when all three ready flags are false; the cursor is persisted before any return; posix::poll returns a positive count at once, returns 0 only when the armed timeout was not clipped or the deadline passed, and re-arms only when nothing was ready and the timeout was clipped."
     ),
     "not_decided": "the numeric latency bound (\"t plus one I/O step\"), millisecond granularity, Instant overflow for absurd limits.",
     "trusted_base": ["rustc MIR", "poll(2): POLLERR/POLLHUP/POLLNVAL are reported even if not requested; timeout -1 blocks indefinitely",
